@@ -15,11 +15,11 @@ mkdir -p seeded_out/$k
 for f in "$src"/*.py "$src"/*.json "$src"/*.cfg "$src"/*.txt; do [ -f "$f" ] && cp "$f" seeded_out/$k/; done
 demo=$(ls seeded_out/$k | grep -E '^demo.*\.py$' | head -1)
 if [[ "$demo" == *test* ]]; then democmd="/venv/bin/python -m pytest -q -p no:cacheprovider seeded_out/$k/$demo"; else democmd="/venv/bin/python seeded_out/$k/$demo"; fi
-PYTHONPATH=$wt timeout 2400 $democmd > demo_clean.log 2>&1; rc_clean=$?
+PYTHONPATH=$wt:$wt/selftests/isolation timeout 2400 $democmd > demo_clean.log 2>&1; rc_clean=$?
 git apply "$patch" || { echo "{\"id\": \"$id\", \"applies\": false}" > $src/confirm.json; cd /; git -C /repo worktree remove --force $wt; exit 1; }
 /venv/bin/python -m compileall -q avocado_i2n > /dev/null 2>&1; rc_compile=$?
-PYTHONPATH=$wt timeout 2400 $democmd > demo_patched.log 2>&1; rc_patched=$?
-PYTHONPATH=$wt timeout 5400 /venv/bin/python -m pytest -q -p no:cacheprovider --timeout=2400 -n ${CONFIRM_JOBS:-8} selftests/isolation > suite.log 2>&1
+PYTHONPATH=$wt:$wt/selftests/isolation timeout 2400 $democmd > demo_patched.log 2>&1; rc_patched=$?
+PYTHONPATH=$wt:$wt/selftests/isolation timeout 5400 /venv/bin/python -m pytest -q -p no:cacheprovider --timeout=2400 -n ${CONFIRM_JOBS:-8} selftests/isolation > suite.log 2>&1
 summary=$(tail -1 suite.log)
 passed=$(echo "$summary" | grep -oE '[0-9]+ passed' | grep -oE '[0-9]+')
 failed=$(echo "$summary" | grep -oE '[0-9]+ failed' | grep -oE '[0-9]+')
